@@ -3,6 +3,8 @@
    sitems      <S2|S4|S6|V2|V4> <srp> <m6plain> <m6sig> <derive> <rplain> <v2plain> <v2sig> <pid> <k:hex>...
    mgmt  <ipadd|iprem|bleadd|blerem> <reply-hex>
    mitems <op> <k:hex>...
+   bstep <S2..V4> <8 oracle tokens> <status:bodyhex>...   the BLE exchanges of the reply under test
+   bmgmt <bleadd|blerem> <status:bodyhex>
    code <hex>            -> error_handler class and documented class
    booleans are 0/1, optional plaintexts are N (None) or hex ("-" = empty) *)
 open Drv
@@ -14,7 +16,7 @@ let cls = function
   | Steps.EMaxTries -> "MaxTries" | Steps.EUnavailable -> "Unavailable" | Steps.EBusy -> "Busy"
   | Steps.EInvalid -> "Invalid" | Steps.EUnknown -> "Unknown" | Steps.EIllegalData -> "IllegalData"
   | Steps.EInvalidAuthTag -> "InvalidAuthTag" | Steps.EIncorrectPairingId -> "IncorrectPairingId"
-  | Steps.EInvalidSignature -> "InvalidSignature" | Steps.EParse -> "Parse"
+  | Steps.EInvalidSignature -> "InvalidSignature" | Steps.EParse -> "Parse" | Steps.EPduStatus -> "PduStatus"
 let step_of = function
   | "S2" -> Steps.SetupM2 | "S4" -> Steps.SetupM4 | "S6" -> Steps.SetupM6
   | "V2" -> Steps.VerifyM2 | "V4" -> Steps.VerifyM4 | _ -> failwith "step"
@@ -41,6 +43,9 @@ let handle = function
       outcome (Steps.step_wire tr (step_of s) (oracles srp m6p m6s der rp v2p v2s pid) (bytes_of_hex h))
   | "sitems" :: s :: srp :: m6p :: m6s :: der :: rp :: v2p :: v2s :: pid :: items ->
       outcome (Steps.step_items (step_of s) (oracles srp m6p m6s der rp v2p v2s pid) (Stdlib.List.map item_of_tok items))
+  | "bstep" :: s :: srp :: m6p :: m6s :: der :: rp :: v2p :: v2s :: pid :: xs ->
+      outcome (StepsBle.step_ble (step_of s) (oracles srp m6p m6s der rp v2p v2s pid) (Stdlib.List.map item_of_tok xs))
+  | ["bmgmt"; op; x] -> mres (StepsBle.mgmt_ble (op_of op) (item_of_tok x))
   | ["mgmt"; op; h] -> mres (Steps.mgmt_wire (op_of op) (bytes_of_hex h))
   | "mitems" :: op :: items -> mres (Steps.mgmt_items (op_of op) (Stdlib.List.map item_of_tok items))
   | ["code"; h] -> cls (Steps.error_handler (bytes_of_hex h)) ^ " " ^ cls (Steps.documented_class (bytes_of_hex h))
